@@ -421,9 +421,10 @@ class _AdversarialFairness(BaseEstimator):
             Array-like containing the sensitive features of the
             training data.
         """
-        first_call = not hasattr(self, "classes_")
+        # Unless warm_start is set, every call to fit starts from newly initialized models.
+        reinitialize = not hasattr(self, "classes_") or not self.warm_start
 
-        X, y, A = self._validate_input(X, y, sensitive_features, first_call)
+        X, y, A = self._validate_input(X, y, sensitive_features, reinitialize)
 
         # Not checked in __setup, because partial_fit may not require it.
         if self.epochs == -1 and self.max_iter == -1:
